@@ -20,6 +20,22 @@ for op in ops:
             a = Time(b2f(op[1]), b2f(op[2]))
             b = Time(b2f(op[3]), b2f(op[4]))
             out.append([int(a == b), int(a != b), int(a < b), int(a > b), int(a <= b), int(a >= b)])
+        elif k == "heap":
+            from jellyfysh.scheduler.heap_scheduler import HeapScheduler
+
+            class H(object):
+                def __init__(self, i):
+                    self.i = i
+            sch = HeapScheduler()
+            hs = [H(i) for i in range(len(op[1]))]
+            for h, (q, r) in zip(hs, op[1]):
+                sch.push_event(Time(b2f(q), b2f(r)), h)
+            order = []
+            for _ in hs:
+                h = sch.get_succeeding_event()
+                order.append(h.i)
+                sch.trash_event(h)
+            out.append(order)
         elif k == "inf":
             out.append([f2b(inf.quotient), f2b(inf.remainder)])
         else:
